@@ -1616,6 +1616,11 @@ func ZipAll[T any]() func(Observable[Observable[T]]) Observable[[]T] {
 					subscriberCtx,
 					NewObserverWithContext(
 						func(ctx context.Context, flattenSources []Observable[T]) {
+							if len(flattenSources) == 0 {
+								destination.CompleteWithContext(ctx)
+								return
+							}
+
 							innerSub.Add(
 								// ...then we zip all inner observables.
 								zipAllInnerSubscriptions(ctx, flattenSources, destination),
@@ -1625,7 +1630,8 @@ func ZipAll[T any]() func(Observable[Observable[T]]) Observable[[]T] {
 							destination.ErrorWithContext(ctx, err)
 						},
 						func(ctx context.Context) {
-							destination.CompleteWithContext(ctx)
+							// The completion of the high-order observable only means that the list of
+							// inner observables is known: the output completes with the inner zip.
 						},
 					),
 				)
